@@ -393,7 +393,7 @@ theorem aggregate_disagg_slice {tr : Transc} {sl mid back : List Cell} {res : Na
       have : part.filter (fun x => decide (x ∈ part)) = part := by
         rw [List.filter_eq_self]; intro y hy; simpa using hy
       rw [this]
-      exact hsub.2.2.2 hpne f hf i
+      exact hsub.2.2.2.1 hpne f hf i
     · intro p hp
       obtain ⟨x, rc⟩ := p
       simp only
